@@ -434,7 +434,7 @@ def _reg_all(R):
 
 
 # ------------------------------------------------------------------------------------------------ C12
-def eval_in_subprocess(repo, progs_cfgs, timeout=20):
+def eval_in_subprocess(repo, progs_cfgs, timeout=60):
     """runs a SEQUENCE of builds in ONE child process; returns list of ('ok', repr) | ('err', cls, cause) and the exit status"""
     code = ("import sys, json; sys.path.insert(0, %r); import awesomeyaml\n" % os.path.abspath(repo) +
             "jobs = json.loads(sys.argv[1])\nout = []\n"
